@@ -84,9 +84,9 @@ Definition ensure (k : key) (c : N) (flags : N) : prog unit :=
   alloc ;;;                                        (* _dbus_hash_table_insert_string *)
   act (ACreateOwn k c flags).
 
-(* add_restore_ownership_to_transaction: OwnershipRestoreData, service link,
-   owner link, preallocated hash entry, CancelHook, hook-list link *)
-Definition add_restore : prog unit := allocs 6.
+(* add_restore_ownership_to_transaction: OwnershipRestoreData, owner link,
+   preallocated hash entry, CancelHook, hook-list link *)
+Definition add_restore : prog unit := allocs 5.
 
 (* bus_service_remove_owner *)
 Definition remove_owner (k : key) (q : queue) (c : N) : prog unit :=
